@@ -14,40 +14,19 @@ ASSUMPTIONS = [
     "the synchronous driver is validated against the public-API driver on all short histories (conformance scenarios) "
     "and on every reported violation",
 ]
-SPEC = {'conf_quick': [('K1', 3), ('K5', 3)],
- 'conf_thorough': [('K1', 4), ('K3', 3), ('K5', 3), ('K7', 3)],
- 'quick': [('K1', 'ar', 6),
-           ('K16', 'cross', 4),
-           ('K0', 'std', 3),
-           ('K1', 'std', 3),
-           ('K3', 'small', 4),
-           ('K14', 'liq', 4),
-           ('K1', 'lend', 4),
-           ('lasso', 'K0', 'liq', 2, 6)],
- 'thorough': [('K1', 'ar', 8),
-              ('K10', 'ar', 8),
-              ('K13', 'ar', 8),
-              ('K16', 'cross', 5),
-              ('K0', 'std', 4),
-              ('K1', 'std', 4),
-              ('K2', 'std', 4),
-              ('K3', 'std', 4),
-              ('K4', 'std', 4),
-              ('K6', 'std', 4),
-              ('K8', 'std', 4),
-              ('K10', 'std', 4),
-              ('K11', 'std', 4),
-              ('K13', 'std', 4),
-              ('K14', 'std', 4),
-              ('K5', 'std', 3),
-              ('K7', 'small', 4),
-              ('K9', 'full', 3),
-              ('K1', 'small', 5),
-              ('K3', 'small', 5),
-              ('K14', 'liq', 5),
-              ('K1', 'lend', 5),
-              ('lasso', 'K0', 'liq', 3, 8),
-              ('lasso', 'K1', 'lend', 3, 6)]}
+SPEC = {
+    'quick': [('K1', 'ar', 6),
+              ('K16', 'cross', 4),
+              ('K0', 'std', 3),
+              ('K1', 'std', 3),
+              ('K3', 'small', 4),
+              ('K14', 'liq', 4),
+              ('K1', 'lend', 4),
+              ('lasso', 'K0', 'liq', 2, 6)],
+    'conf_quick': [('K1', 3), ('K5', 3)],
+    'conf_thorough': [('K1', 3), ('K3', 3), ('K5', 3), ('K7', 3)],
+}
+SPEC['thorough'] = X.thorough_spec(SPEC['quick'], [('K1', 'lend'), ('K14', 'lend')])
 BOUNDS = {t: dict(spec=SPEC[t]) for t in ("quick", "thorough")}
 EXPLANATION = ("explicit-state BFS over operation histories with state de-duplication; every transition executes the "
                "real exchange; traces_validated_against_impl = histories executed through BOTH drivers (sync and "
